@@ -169,8 +169,9 @@ CHECKS.update({
             "width-changing string-set! and a byte store shared at an offset, symbols, nested lists/vectors/bytevectors/records) is decided by "
             "native equal?, (scheme base) equal?, eqv?, hash, string-hash, string-ci-hash and compared with abstract identity; reflexivity, "
             "symmetry, transitivity and equal? => same hash are checked on the matrix; a cyclic family (oracle: bisimulation) and a depth "
-            "family around the 10000-level bound. (b) explicit-state exploration of table histories: all operation sequences of length <= 3 "
-            "(4 thorough) over 6 collision-forcing keys from tables pre-filled to both sides of every growth threshold, 5 equivalences "
+            "family around the 10000-level bound. (b) explicit-state exploration of table histories: all sequences of state-changing operations of length <= 4 "
+            "from nearly empty tables, <= 3 / 2 from small / large pre-filled ones (one more each in the thorough tier; SRFI 125: one "
+            "less), over 6 collision-forcing keys from tables pre-filled to 19 sizes on both sides of every growth threshold up to 512, 5 equivalences "
             "(eq?, eqv?, equal?, string=?, string-ci=?), SRFI 69 and SRFI 125 names, every observation (ref, size, keys, values, walk, fold, "
             "copy) compared with mc/models/maps.py after every step.",
             "Keys and values are from a small alphabet; histories beyond the stated length are covered only through the pre-filled "
